@@ -38,7 +38,7 @@ QUOTA = {'quick': 45, 'thorough': 900}
 REQUIRED = {'quick': {'evaluations': 8000, 'path_queries_compared': 6000, 'bare_id_queries': 800, 'subset_selector_queries': 500,
                       'attribute_step_queries': 500, 'replication_envelope_results': 800, 'invariance_checks': 300,
                       'corpus_messages': 8, 'sliced_queries': 3000, 'malformed_queries_interleaved': 500,
-                      'query_result_renderings': 1500, 'same_layout_different_bitmap_messages': 12},
+                      'query_result_renderings': 1500, 'same_layout_different_bitmap_messages': 12, 'cli_query_runs': 30},
             'thorough': {'evaluations': 150000, 'path_queries_compared': 120000, 'bare_id_queries': 15000,
                          'subset_selector_queries': 10000, 'attribute_step_queries': 10000, 'replication_envelope_results': 15000,
                          'invariance_checks': 5000, 'corpus_messages': 100, 'sliced_queries': 60000}}
@@ -289,6 +289,56 @@ def query_message(ctx, q, m, spec, origin, npaths):
     return used
 
 
+def cli_query(ctx, q, m, b, exprs, spec, tag):
+    """the `query` command prints what the querent returns (text, flat JSON, nested JSON) - same values, same subsets"""
+    from mon.cli import run_cli
+    scratch = os.path.join(os.environ.get('VERIF_SCRATCH', '/verif/.scratch'), 'c16-%d' % ctx.shard)
+    os.makedirs(scratch, exist_ok=True)
+    path = os.path.join(scratch, 'q_%s.bufr' % tag)
+    with open(path, 'wb') as f:
+        f.write(b)
+    try:
+        for expr in exprs:
+            try:
+                qr = q.query(m, expr)
+            except Exception:
+                continue
+            idx = list(qr.subset_indices())
+            nestedv = [norm(qr.get_values(i)) for i in idx]
+            flatv = [norm(qr.get_values(i, flat=True)) for i in idx]
+            for flags, want in ((['-j', '-n'], nestedv), (['-j'], flatv), ([], flatv)):
+                ctx.count('cli_query_runs')
+                ctx.evaluated((spec.get('hex', spec.get('file', ''))[:300], 'cli', expr, tuple(flags)), True)
+                so, se, exc, code = run_cli(['query'] + flags + [expr, path])
+                name = ''.join(flags) or 'text'
+                if exc is not None or se.strip():
+                    ctx.violate('cli-query-fails/%s' % name, 'pybufrkit query %s %r failed: %r %s' % (flags, expr, exc, se[:120]),
+                                dict(spec, expr=expr, cli=flags))
+                    continue
+                try:
+                    if flags:
+                        got = json.loads(so)
+                        ok = [int(k) for k in got.keys()] == idx and [norm(v) for v in got.values()] == json.loads(json.dumps(want))
+                    else:
+                        lines = so.splitlines()
+                        heads = [ln for ln in lines if ln.startswith('######')]
+                        vals = [ln for ln in lines[1:] if not ln.startswith('######')]
+                        ok = (lines[:1] == [path] and heads == ['###### subset %d of %d ######' % (i + 1, qr.n_subsets) for i in idx]
+                              and len(vals) == len(idx)
+                              and all(v == ','.join(repr(x) for x in qr.get_values(i, flat=True)) for v, i in zip(vals, idx)))
+                except Exception as ex:
+                    ok = False
+                if not ok:
+                    ctx.violate('cli-query-output-differs/%s' % name,
+                                'pybufrkit query %s %r prints other values/subsets than the querent returns (%r)' % (flags, expr, want),
+                                dict(spec, expr=expr, cli=flags), observed=so[:400])
+    finally:
+        try:
+            os.remove(path)
+        except OSError:
+            pass
+
+
 def invariance(ctx, q, dec, decc, enc, msg, m, used, spec):
     """same data compressed/uncompressed, compiled/not: same query results"""
     from pybufrkit.renderer import FlatJsonRenderer
@@ -377,6 +427,8 @@ def run(ctx):
             spec = dict(origin='shape', shape=name, ids=ids, compressed=comp, hex=msg.bytes.hex())
             used = query_message(ctx, q, m, spec, 'shape', 40)
             invariance(ctx, q, dec, decc, enc, msg, m, used, spec)
+            if n % 3 == 0 and used:
+                cli_query(ctx, q, m, msg.bytes, ['@[1:]' + used[0], used[-1], '@[-1]' + used[len(used) // 2]], spec, 's%d' % n)
     for nsub in (2, 3, 4, 5, 3, 4):
         for name, msg in cases.same_layout_cases(rng, nsub=nsub):
             n += 1
